@@ -652,11 +652,14 @@ def backoff_iter(start, stop, count=None, factor=2.0, jitter=False):
         denom = start if start else 1
         # a stop below the first non-zero value (start, or 1 after a
         # zero start) is reached in one step, not a negative number
-        count = 1 + max(0, math.ceil(math.log(stop/denom, factor)))
+        # (difference of logarithms: stop/denom itself can overflow)
+        estimate = 1 + max(0, math.ceil(math.log(stop, factor)
+                                        - math.log(denom, factor)))
         # the logarithm is rounded (a stop one ulp above start*factor**k
-        # gave k): count the steps the loop below really takes to reach stop
+        # gave k): count the steps the loop below really takes to reach
+        # stop, at most one more than the estimate
         reached, count = denom, 1
-        while reached < stop:
+        while reached < stop and count <= estimate:
             reached *= factor
             count += 1
         count = count if start else count + 1
